@@ -375,3 +375,29 @@ func VerifC02Churn() {
 	vInvariant(c, "C02-churn")
 	nd.Reach("end")
 }
+
+// VerifC02Filtered: a filter does not select a contiguous run. One partition with three items whose filter
+// attribute is symbolic (so: accepted - refused - accepted among the cases), read by Query (both directions) and
+// Scan, on the table and through the index, with a filter: exactly the accepted items, in order.
+func VerifC02Filtered() {
+	c := vClient(true)
+	nd.Assert(AddIndex(vCtx, c, vTbl, vIdx, "g", "h") == nil, "setup-addindex")
+	m := &vModel{withRange: true}
+	for i, sk := range []string{"a", "b", "c"} {
+		nm := "k" + string(rune('0'+i))
+		attrs := map[string]string{"f": nd.StringN(nm+".f", 1), "g": "k", "h": sk}
+		key := vKey{p: "k", s: sk}
+		nd.Assert(vPut(c, m.full(key, attrs)) == nil, "setup-put")
+		m.put(key, attrs)
+	}
+	fv := nd.StringN("fv", 1)
+	r := vRead{hashVal: "k", filter: []string{"=", "<>"}[nd.Choice("filter", 2)], fv: fv, forward: nd.Choice("forward", 2) == 1}
+	r.index = nd.Choice("index", 2) == 1
+	r.scan = nd.Choice("scan", 2) == 1
+	items, count, last, err := r.run(c, 0, nil)
+	nd.Assert(err == nil && len(last) == 0, "C02-filtered-noerr")
+	if err == nil {
+		vC02Exact(r, m, items, count, "C02-filtered")
+	}
+	nd.Reach("end")
+}
